@@ -262,6 +262,17 @@ def scanPaths : Nat → Str → Option (List Int × Str)
       | some (is, r'') => some (i :: is, r'')
       | none => some ([i], r')
 
+/-- `list(map(int, d['paths'].strip().split()))`: the regex `(?:-?\d+\s*)+` also accepts two integers
+with no blank between them (`1-0`, `3 10-2`: a digit directly followed by `-` and a digit); splitting the
+matched text on blanks then gives a piece that `int()` rejects — `from_string` raises ValueError.
+`pathsGlued f s` = the paths text starting at `s` contains such a pair. -/
+def pathsGlued : Nat → Str → Bool
+  | 0, _ => false
+  | f + 1, s =>
+    match scanInt s with
+    | none => false
+    | some (_, r) => ((r.head? == some '-') && (scanInt r).isSome) || pathsGlued f (skipWs r)
+
 /-- `(?:{string}\s*)+`: the raw strings. -/
 def scanStrings : Nat → Str → Option (List Str × Str)
   | 0, _ => none
@@ -340,6 +351,7 @@ def posThenClose : Nat → Str → Bool
 inductive MT where
   | nomatch                          -- `_yy_re` does not match at this position
   | unmodelled                       -- it matches a token with lrules ≠ ["null"] or with pos tags
+  | valueError                       -- it matches, but `int()` of a piece of the paths text raises ValueError
   | tok (t : YTok) (rest : Str)
 deriving Repr, DecidableEq
 
@@ -371,17 +383,21 @@ def matchTok (s : Str) : MT :=
     optBind (scanStrings (r14.length + 1) r14) fun (lrules, r15) =>
     match skipWs r15 with
     | ')' :: r16 =>
-      if lrules = ["null".toList] then
+      if pathsGlued (r7.length + 1) r7 then .valueError
+      else if lrules = ["null".toList] then
         .tok ⟨id, st, en, lnk, paths, unescapeDQ form, surface.map unescapeDQ, ipos⟩ r16
       else .unmodelled
     | ',' :: r16 =>
       -- `(?:{comma}(?P<pos>…))?\s*\)`: a token with pos tags (outside the modelled shapes) only if that
       -- optional part really matches up to the closing parenthesis; otherwise the regex does not match here
-      if posThenClose (r16.length + 1) (skipWs r16) then .unmodelled else .nomatch
+      if posThenClose (r16.length + 1) (skipWs r16) then
+        (if pathsGlued (r7.length + 1) r7 then .valueError else .unmodelled)
+      else .nomatch
     | _ => .nomatch
   | _ => .nomatch
 
-/-- `_yy_re.finditer(s)`: `none` = a token outside the modelled shapes was met. -/
+/-- `_yy_re.finditer(s)`: `none` = a token outside the modelled shapes was met, or `from_string` raises
+ValueError (glued paths); the driver protocol has one answer for both. -/
 def yyParse : Nat → Str → Option (List YTok)
   | 0, _ => some []
   | _ + 1, [] => some []
@@ -389,6 +405,7 @@ def yyParse : Nat → Str → Option (List YTok)
     match matchTok (c :: r) with
     | .nomatch => yyParse f r
     | .unmodelled => none
+    | .valueError => none
     | .tok t rest => (yyParse f rest).map (t :: ·)
 
 def latParse (s : Str) : Option (List YTok) := yyParse (s.length + 1) s
